@@ -185,11 +185,12 @@ def check_gate(prog, fn, gates, success=P1 | POS):
 
 class Lin(object):
     """sum(coef * term) + const, terms are access-path strings."""
-    __slots__ = ('t', 'c')
+    __slots__ = ('t', 'c', '_h')
 
     def __init__(self, t=None, c=0):
         self.t = dict((k, v) for k, v in (t or {}).items() if v != 0)
         self.c = c
+        self._h = None          # values are never mutated after construction: the hash is computed once
 
     def __add__(self, o):
         t = dict(self.t)
@@ -213,7 +214,10 @@ class Lin(object):
         return not self.__eq__(o)
 
     def __hash__(self):
-        return hash((tuple(sorted(self.t.items())), self.c))
+        h = self._h
+        if h is None:
+            h = self._h = hash((tuple(sorted(self.t.items())), self.c))
+        return h
 
     def is_const(self):
         return not self.t
